@@ -113,6 +113,7 @@ type Term struct {
 	Name string // variables
 	X0   int
 	X1   int
+	FP   bool // contains floating-point operations
 }
 
 type termKey struct {
@@ -248,6 +249,12 @@ func (tt *TermTable) mk(op Op, s Sort, x0, x1 int, args ...*Term) *Term {
 		return t
 	}
 	t := &Term{id: tt.nextID, Op: op, Sort: s, Args: append([]*Term(nil), args...), X0: x0, X1: x1}
+	t.FP = s.K == SFP || op >= OpFAdd
+	for _, a := range args {
+		if a.FP {
+			t.FP = true
+		}
+	}
 	tt.nextID++
 	tt.tab[k] = t
 	return t
